@@ -124,6 +124,27 @@ theorem C19_random_v4 (u : List UInt8) (h : u.length = 16) :
     (byteAt (stampV4 u) 8 &&& 0x3F).toNat = (byteAt u 8).toNat % 64 :=
   stampV4_facts u h
 
+/-- `RandomUUID` for every state of the random source: it reports success exactly when 16 bytes were delivered, a
+    successful result always has version 4 and the RFC 4122 variant (so no unstamped value is ever returned as a
+    UUID), and a failure is reported as an error (`MustRandomUUID`: a panic) with 16 bytes that start with what
+    was read. -/
+theorem C19_random_total (avail : List UInt8) :
+    ((randomUUID avail).1 = true ↔ 16 ≤ avail.length) ∧
+    ((randomUUID avail).1 = true → (randomUUID avail).2.length = 16 ∧ version (randomUUID avail).2 = 4 ∧
+      variant (randomUUID avail).2 = 2) ∧
+    ((randomUUID avail).1 = false → (randomUUID avail).2.length = 16 ∧ (randomUUID avail).2.take avail.length = avail) := by
+  unfold randomUUID
+  by_cases h : 16 ≤ avail.length
+  · simp only [h, if_true, true_iff, forall_const]
+    have hl : (avail.take 16).length = 16 := by simp; omega
+    have := stampV4_facts (avail.take 16) hl
+    refine ⟨trivial, ⟨?_, this.1, this.2.1⟩, by simp⟩
+    simp [stampV4, hl]
+  · simp only [h, if_false]
+    refine ⟨by simp, by simp, fun _ => ⟨by simp; omega, by simp⟩⟩
+
+example : randomUUID (List.replicate 15 0xff) = (false, List.replicate 15 0xff ++ [0]) := by decide
+
 /-- Min/MaxTimeUUID bound every RFC 4122 version-1 UUID of the same instant under Cassandra's order
     (timestamp first, then the low 8 bytes compared as SIGNED bytes). -/
 theorem C19_min_max_bound (ts : Nat) (hts : ts < 2 ^ 60) (u : List UInt8) (hl : u.length = 16)
